@@ -156,3 +156,74 @@ func TestC18Bounded(t *testing.T) {
 	rec18 = h.NewRecorder("C18", "growth")
 	h.RunWith(t, rec18, genC18, judgeC18)
 }
+
+// Unanswered exchanges: updates for a rating group that has no account make the
+// rating and account servers stay silent, so every exchange ends in the
+// client's 5 s timeout.  A request that completed this way must not leave a
+// connection, watchdog or reader task behind either.
+type C18Silent struct {
+	Subs int `json:"subs"` // subscribers issuing one such update each, concurrently
+	Reps int `json:"reps"`
+}
+
+func judgeC18Silent(c C18Silent) *h.Verdict {
+	v := &h.Verdict{NonTrivial: true}
+	v.Label("unanswered-exchanges")
+	var hst Hist
+	for i := 0; i < c.Subs; i++ {
+		hst.Subs = append(hst.Subs, Sub{Acct: [3]Acct{{1, 1000}, {1, 1000}, {1, 1000}}})
+	}
+	w := NewWorld(hst)
+	type sessT struct {
+		supi, ref string
+		id        int32
+	}
+	var ss []sessT
+	for i := 0; i < c.Subs; i++ {
+		r := w.Exec(Op{K: "create", S: i, Name: "smf", UUs: []UU{{RG: 1, Req: 10}}})
+		if r.Status != 201 {
+			return v.Failf("valid-request-rejected/create", "create answered %d", r.Status)
+		}
+		// one answered update first, so that the subscriber's clients have been used
+		if r2 := w.Exec(Op{K: "update", S: i, UUs: []UU{{RG: 1, Req: 10, Conts: []Cont{{Q: "online", Pm: 0}}}}}); r2.Status != 200 {
+			return v.Failf("valid-request-rejected/update", "update answered %d", r2.Status)
+		}
+		ss = append(ss, sessT{w.subs[i].supi, r.Sess.ref, r.Sess.chargingID})
+	}
+	base := settle()
+	for rep := 0; rep < c.Reps; rep++ {
+		done := make(chan int, len(ss))
+		for i, s := range ss {
+			go func(i int, s sessT) {
+				code, _, _ := doHTTP("POST", prefix+"/chargingdata/"+s.ref+"/update", mkUpdateBody(s.supi, s.id, 7, 10, 0, int32(9000+100*rep+i), ""), nil)
+				done <- code
+			}(i, s)
+		}
+		for range ss {
+			select {
+			case code := <-done:
+				if code != 200 {
+					return v.Failf("valid-request-rejected/update", "update for a rating group without account answered %d", code)
+				}
+			case <-time.After(90 * time.Second):
+				return v.Failf("request-hangs", "an update whose exchanges go unanswered did not return within 90 s")
+			}
+		}
+	}
+	time.Sleep(7 * time.Second) // one watchdog interval, so that tasks that are going to end have ended
+	rc := settle()
+	n := c.Subs * c.Reps
+	if rc.conns > base.conns+2 {
+		return v.Failf("connections-left-after-timeouts", "%d updates whose exchanges timed out left %d connections to the peers open (before: %d)", n, rc.conns, base.conns)
+	}
+	if rc.diamGoroutines > base.diamGoroutines+2 {
+		return v.Failf("tasks-left-after-timeouts", "%d updates whose exchanges timed out left %d Diameter watchdog/reader tasks behind (before: %d); all goroutines %d -> %d", n, rc.diamGoroutines, base.diamGoroutines, base.goroutines, rc.goroutines)
+	}
+	return v
+}
+
+func TestC18Silent(t *testing.T) {
+	h.Run(t, "C18", "silent", func(t *rapid.T) C18Silent {
+		return C18Silent{Subs: rapid.SampledFrom([]int{4, 6, 8}).Draw(t, "subs"), Reps: h.Scale(1, 3)}
+	}, judgeC18Silent)
+}
